@@ -678,5 +678,11 @@ class MQTTProtocol(MQTTBaseProtocol):
         # Then, invoke errbacks anyway if we do not persist state
         if self._cleanStart:
             self._purgeSession(reason)
+            # publishes still held back by the window die with the session as well
+            queue = self.factory.queuePublishTx[self.addr]
+            while len(queue):
+                request = queue.popleft()
+                if request.msgId:   # QoS 0 Deferreds have already fired
+                    request.deferred.errback(reason)
 
 __all__ = [ "MQTTProtocol" ]
